@@ -260,7 +260,15 @@ func judgeMatrix(c *fw.Ctx, name string, bottomLeft bool, id int, ntiles int) {
 	// points 1 % of a tile outside each side map to no tile
 	cxm, cym := (f(minX)+f(maxX))/2, (f(minY)+f(maxY))/2
 	ex, ey := math.Max(0.01*tsx, 1e-7), math.Max(0.01*tsy, 1e-7)
-	for side, p := range map[string]geom.Point{"left": {f(minX) - ex, cym}, "right": {f(maxX) + ex, cym}, "below": {cxm, f(minY) - ey}, "above": {cxm, f(maxY) + ey}} {
+	nan, inf := math.NaN(), math.Inf(1)
+	for side, p := range map[string]geom.Point{"left": {f(minX) - ex, cym}, "right": {f(maxX) + ex, cym}, "below": {cxm, f(minY) - ey}, "above": {cxm, f(maxY) + ey},
+		// far outside, and points that are in no tile because an ordinate is not a number (an empty point decodes to NaN NaN)
+		"far right": {math.MaxFloat64, cym}, "far left": {-math.MaxFloat64, cym}, "far above": {cxm, 1e300}, "far below": {cxm, -1e300},
+		"infinitely right": {inf, cym}, "infinitely left": {-inf, cym}, "infinitely above": {cxm, inf}, "infinitely below": {cxm, -inf},
+		"nowhere (x is NaN)": {nan, cym}, "nowhere (y is NaN)": {cxm, nan}, "nowhere (NaN NaN)": {nan, nan}} {
+		if p[0] != p[0] || p[1] != p[1] {
+			c.Rec.Count("outside_points_with_NaN")
+		}
 		var got *slippy.Tile
 		var fok bool
 		func() {
@@ -333,9 +341,9 @@ func init() {
 			}
 			judgeMatrix(c, tc.Set, tc.BottomLeft, tc.ID, 50)
 		},
-		Rule: "every tile matrix without variable widths of all 14 built-in sets, as is and re-expressed with a bottom-left corner of origin: 4 corner tiles, 8 border tiles and 60 (thorough 2000) random tiles; oracle in 200-bit floats from origin, tile size and corner convention, x,y order taken from the document's orderedAxes (independent of the EPSG table): ToNative = exact top-left corner within 5e-10 + 4 ulp of the largest intermediate magnitude; 5 interior points per tile built from the exact bounds with margin max(1 % tile, 1e-7), and 4 points just inside each edge (margin 64 ulp of the largest intermediate magnitude + 2e-9) map back to the tile; points 1 % outside each side map to no tile; MatrixBoundingBox = exact box and is spanned by the corners of tiles (0,0) and (w,h); distinct = (set, variant, matrix, tile)",
+		Rule: "every tile matrix without variable widths of all 14 built-in sets, as is and re-expressed with a bottom-left corner of origin: 4 corner tiles, 8 border tiles and 60 (thorough 2000) random tiles; oracle in 200-bit floats from origin, tile size and corner convention, x,y order taken from the document's orderedAxes (independent of the EPSG table): ToNative = exact top-left corner within 5e-10 + 4 ulp of the largest intermediate magnitude; 5 interior points per tile built from the exact bounds with margin max(1 % tile, 1e-7), and 4 points just inside each edge (margin 64 ulp of the largest intermediate magnitude + 2e-9) map back to the tile; points 1 % outside each side, points at +-MaxFloat64/+-1e300/+-Inf and points with a NaN ordinate map to no tile; MatrixBoundingBox = exact box and is spanned by the corners of tiles (0,0) and (w,h); distinct = (set, variant, matrix, tile)",
 		Required: func(string) []string {
-			return []string{"corner:bottomLeft", "corner:topLeft", "axes:swapped(lat/lon or y/x documents)", "axes:x,y", "interior_points", "near_edge_points", "outside_points", "bounding_boxes", "skipped:variable-widths"}
+			return []string{"corner:bottomLeft", "corner:topLeft", "axes:swapped(lat/lon or y/x documents)", "axes:x,y", "interior_points", "near_edge_points", "outside_points", "outside_points_with_NaN", "bounding_boxes", "skipped:variable-widths"}
 		},
 		MinNonTriv:  1000,
 		Assumptions: []string{"9-decimal rounding of ToNative/MatrixBoundingBox is part of the design (tolerance 5e-10 + ulps)", "x,y order derived from orderedAxes: first axis lat/y/n means swapped"},
